@@ -9,7 +9,7 @@
                DictArray.load reads the file only when it exists               (the repaired code)
    Definitions only. *)
 From Verif Require Import Base.Prelude Base.StrUtil Base.Index Base.NdArr Base.PyRange Base.StrSeq
-  Model.MapSpec Model.MapRun Model.SymBody Model.MapResume.
+  Model.MapSpec Model.MapSpecSpec Model.MapRun Model.SymBody Model.MapResume.
 
 Inductive variant := OldCode | NewCode.
 (* ShmSt = shared_memory_dict: a DictArray whose elements are dumped by the submit phase (dump_in_subprocess) *)
@@ -157,6 +157,27 @@ Definition mapped_outputs (c : ctx) : result (list (str * nat)) :=
   Ok (concat l).
 Definition single_outputs (c : ctx) : list str :=
   flat_map (fun f => if is_mapped f then [] else fouts f) (x_p c).
+
+(* every real (non-temporary) file a run of the pipeline writes, by what it is for *)
+Inductive rpath :=
+| RInfo | RDefaults | RInput (n : str)
+| RDict (o : str) | RElem (o : str) (i : nat) | RSingle (o : str).
+Definition path_of (r : rpath) : path :=
+  match r with
+  | RInfo => p_info | RDefaults => p_defaults | RInput n => p_input n
+  | RDict o => p_dict o | RElem o i => p_elem o i | RSingle o => p_single o
+  end.
+Definition all_rpaths (mo : list (str * nat)) (singles names : list str) : list rpath :=
+  RInfo :: RDefaults :: map RInput names
+  ++ flat_map (fun on : str * nat => RDict (fst on) :: map (RElem (fst on)) (seq 0 (snd on))) mo
+  ++ map RSingle singles.
+(* distinct files have distinct names (true when input and output names are identifiers; decidable, so it can be
+   evaluated for any concrete pipeline) *)
+Definition paths_ok (c : ctx) (names : list str) : bool :=
+  match mapped_outputs c with
+  | Ok mo => nodup_str (map path_of (all_rpaths mo (single_outputs c) names))
+  | Err _ => false
+  end.
 
 (* RunInfo.init_store: FileArray(...) creates its folder; DictArray(...) loads what was persisted *)
 Definition init_step (v : variant) (st : storage) (acc : result (em * list (str * estore))) (on : str * nat)
